@@ -1,34 +1,37 @@
 """Which test functions decide which property, and how hard each tier tries.
 
-checks = rapid cases per shard; shards run as parallel processes with derived
-seeds. Timeouts are wall-clock guards that only ever yield "inconclusive".
+One file per property in checks.d/<ID>.py defining ID, CHECK and META.
+CHECK["tests"] is a list of T(pkg, TestName, quick, thorough, **kw) where
+quick/thorough are dicts {checks: rapid cases per shard, shards: parallel
+processes with derived seeds, timeout: wall-clock guard in seconds (only ever
+yields "inconclusive"), steps: optional -rapid.steps, args: extra argv} or None
+to skip the test in that tier. kw: env={...}, race=True.
 """
+import glob
+import os
+
 
 def T(pkg, name, quick, thorough, **kw):
     d = {"pkg": pkg, "name": name, "quick": quick, "thorough": thorough}
     d.update(kw)
     return d
 
-CHECKS = {
-    "C20": {
-        "level": "exploration",
-        "assumptions": [
-            "ByteRangeLockSet.Set(lock) is only called after Test reported no conflict (documented precondition)",
-            "offset universe compressed to 33 units (16 lowest bytes, one gap, 16 highest offsets)",
-        ],
-        "tests": [
-            T("lockset", "TestC20LockSetModel",
-              {"checks": 20000, "shards": 2, "timeout": 300},
-              {"checks": 250000, "shards": 16, "timeout": 1500}),
-        ],
-    },
-}
 
-META = {
-    "C20": {
-        "text": "Generated search (rapid state machines) against a per-byte reference model; no proof of absence. The lock table is compared with the model by exhaustive probing after every step.",
-        "design_ref": "6/C20",
-        "note": "Trusts the naive per-byte model and the 33-unit compression of the offset space; Set is only called after a non-conflicting Test, as documented.",
-        "technique": "stateful model-based property testing (rapid) against a per-byte reference lock map",
-    },
-}
+CHECKS = {}
+META = {}
+_parts = []
+for _p in sorted(glob.glob(os.path.join(os.path.dirname(os.path.abspath(__file__)), "checks.d", "C*.py"))):
+    _g = {"T": T}
+    with open(_p) as _f:
+        exec(compile(_f.read(), _p, "exec"), _g)
+    if "CHECK" in _g:
+        CHECKS[_g["ID"]] = _g["CHECK"]
+        META[_g["ID"]] = _g["META"]
+    else:
+        # Part file checks.d/<ID>.<part>.py: ID, TESTS, optional ASSUMPTIONS;
+        # merged into the property's main file (which must exist).
+        _parts.append(_g)
+for _g in _parts:
+    if _g["ID"] in CHECKS:
+        CHECKS[_g["ID"]]["tests"].extend(_g["TESTS"])
+        CHECKS[_g["ID"]].setdefault("assumptions", []).extend(_g.get("ASSUMPTIONS", []))
